@@ -19,14 +19,31 @@ int main(int argc, char **argv)
   std::ifstream f(expect);
   if (f.good()) printf("OUTDIR ok %s\n", expect.c_str()); else { printf("OUTDIR missing %s\n", expect.c_str()); bad = 1; }
   WorldBuilder::World w(file, false, "", seed);
-  const unsigned int req[3][3] = {{1,0,0},{2,0,0},{4,0,0}};
-  double vals[8] = {0};
-  properties_3d(h, 500e3, 500e3, 900e3, 100e3, req, 3, vals);
-  std::vector<double> nat = w.properties(std::array<double,3>{{500e3,500e3,900e3}}, 100e3, {{{1,0,0}},{{2,0,0}},{{4,0,0}}});
-  bool same = nat.size() == 3 && std::memcmp(vals, nat.data(), 3*sizeof(double)) == 0;
-  double t = 0, c = 0; temperature_3d(h, 500e3, 500e3, 900e3, 100e3, &t); composition_3d(h, 500e3, 500e3, 900e3, 100e3, 0, &c);
-  same = same && t == w.temperature(std::array<double,3>{{500e3,500e3,900e3}}, 100e3) && c == w.composition(std::array<double,3>{{500e3,500e3,900e3}}, 100e3, 0);
-  if (properties_output_size(h, req, 3) != w.properties_output_size({{{1,0,0}},{{2,0,0}},{{4,0,0}}})) same = false;
+  bool same = true;
+  const unsigned int reqs[4][3][3] = {{{1,0,0},{2,0,0},{4,0,0}}, {{3,0,1},{5,0,0},{2,1,0}}, {{3,1,2},{1,0,0},{3,0,1}}, {{5,0,0},{3,0,2},{4,0,0}}};
+  const double xs[3] = {30e3, -40e3, 250e3}, ds[3] = {0.0, 10e3, 300e3};
+  for (int r = 0; r < 4 && same; ++r)
+    for (int k = 0; k < 3 && same; ++k)
+      {
+        const double x = xs[k], d = ds[k], z = 1000e3 - d, y = 0.5 * x;
+        std::vector<std::array<unsigned int,3>> req; for (int j = 0; j < 3; ++j) req.push_back({{reqs[r][j][0], reqs[r][j][1], reqs[r][j][2]}});
+        const unsigned int n = properties_output_size(h, reqs[r], 3);
+        if (n != w.properties_output_size(req)) { printf("DIFF properties_output_size request %d\n", r); same = false; }
+        std::vector<double> v3(n + 400, -7.0), v2(n + 400, -7.0);
+        properties_3d(h, x, y, z, d, reqs[r], 3, v3.data());
+        properties_2d(h, x, z, d, reqs[r], 3, v2.data());
+        std::vector<double> n3 = w.properties(std::array<double,3>{{x,y,z}}, d, req), n2 = w.properties(std::array<double,2>{{x,z}}, d, req);
+        if (n3.size() != n || std::memcmp(v3.data(), n3.data(), n*sizeof(double)) != 0 || v3[n] != -7.0) { printf("DIFF properties_3d request %d at x=%g depth=%g\n", r, x, d); same = false; }
+        if (n2.size() != n || std::memcmp(v2.data(), n2.data(), n*sizeof(double)) != 0 || v2[n] != -7.0) { printf("DIFF properties_2d request %d at x=%g depth=%g\n", r, x, d); same = false; }
+        double t = 0, c = 0;
+        temperature_3d(h, x, y, z, d, &t); if (std::memcmp(&t, &n3[0], 0) != 0 || t != w.temperature(std::array<double,3>{{x,y,z}}, d)) { printf("DIFF temperature_3d\n"); same = false; }
+        temperature_2d(h, x, z, d, &t); if (t != w.temperature(std::array<double,2>{{x,z}}, d)) { printf("DIFF temperature_2d\n"); same = false; }
+        for (unsigned int ci = 0; ci < 3; ++ci)
+          {
+            composition_3d(h, x, y, z, d, ci, &c); if (c != w.composition(std::array<double,3>{{x,y,z}}, d, ci)) { printf("DIFF composition_3d %u\n", ci); same = false; }
+            composition_2d(h, x, z, d, ci, &c); if (c != w.composition(std::array<double,2>{{x,z}}, d, ci)) { printf("DIFF composition_2d %u\n", ci); same = false; }
+          }
+      }
   printf("VALUES %s\n", same ? "ok" : "differ");
   if (!same) bad = 1;
   release_world(h);
